@@ -117,6 +117,56 @@ def write_sites(cls):
     return out
 
 
+class RespView:
+    """what the clauses see of a real Response: its attributes, plus the ghost g_enc = what iter_encoded() yields"""
+
+    def __init__(self, resp):
+        object.__setattr__(self, "_r", resp)
+
+    def __getattr__(self, name):
+        r = object.__getattribute__(self, "_r")
+        if name == "g_enc":
+            return list(r.iter_encoded())
+        return getattr(r, name)
+
+
+def replay_resp(reg, c, inputs):
+    """replay get_wsgi_headers on a real Response built from the model; the environ (opaque in the contract) is a
+    plain local GET request"""
+    from pyvc import runtime
+    wr = runtime.import_real("werkzeug/wrappers/response.py")
+    inp = inputs["self"]
+    r = wr.Response.__new__(wr.Response)
+    ds = runtime.import_real("werkzeug/datastructures/__init__.py")
+    h = ds.Headers()
+    h._list = [tuple(x["__tuple__"]) if isinstance(x, dict) else tuple(x) for x in inp["headers"]["_list"]]
+    r.headers = h
+    r._status_code = inp["status_code"]
+    r._status = f"{inp['status_code']} X"
+    r.response = list(inp["response"])
+    r.direct_passthrough = bool(inp.get("direct_passthrough"))
+    r.autocorrect_location_header = bool(inp["autocorrect_location_header"])
+    r.automatically_set_content_length = bool(inp["automatically_set_content_length"])
+    r._on_close = []
+    environ = {"wsgi.url_scheme": "http", "SERVER_NAME": "localhost", "SERVER_PORT": "80", "SCRIPT_NAME": "",
+               "PATH_INFO": "/", "REQUEST_METHOD": "GET", "QUERY_STRING": ""}
+    nc = runtime.NativeContract(reg, c)
+    fails = nc.check_call(r.get_wsgi_headers, [environ], {}, {"self": RespView(r), "environ": environ})
+    if not fails:
+        # the encoded body (ghost g_enc) is abstract in the model; natively it is determined by the items: look at a
+        # few other bodies with the same headers / status / flags (bounded native search around the model)
+        for body in (["\u00e9"], ["\u65e5\u672c", "x"], [], ["", "ab"]):
+            r.response = list(body)
+            r.headers = ds.Headers()
+            r.headers._list = list(h._list)
+            fails = nc.check_call(r.get_wsgi_headers, [environ], {}, {"self": RespView(r), "environ": environ})
+            if fails:
+                return [f"(body items {body!r}) " + f for f in fails]
+    if not fails and nc.errors:
+        return None
+    return fails
+
+
 def register(reg):
     P = "C05"
     from pyvc.extract import ModuleInfo
@@ -168,7 +218,7 @@ def register(reg):
     H = reg.model("Headers", cls="werkzeug/datastructures/headers.py:Headers", fields={"_list": "List[Tuple[str, str]]"})
     reg.spec("I_h(self)", "forall(0, len(self._list), lambda i: clean(self._list[i][1]))")
     reg.contract(
-        "werkzeug/datastructures/headers.py:Headers.add", prop="C05,C08", self_model=H, replay="method",
+        "werkzeug/datastructures/headers.py:Headers.add", prop="C05,C08", self_model=H, replay="method", modifies=["self._list"], raise_modifies=[],
         cases=[{"value": "str"}, {"value": "int"}], params={"key": "str"},
         requires=["I_h(self)"],
         ensures=["I_h(self)", "len(self._list) == len(old(self._list)) + 1",
@@ -182,10 +232,14 @@ def register(reg):
 
     # ---- body suppression: HEAD, 1xx, 204, 304 never send body bytes -------------------------------
     from pyvc.values import VObj
+    # response: a buffered body (list of text items); g_enc (ghost): the byte strings iter_encoded() yields for it
     RespM = reg.model("ResponseM", cls="werkzeug/wrappers/response.py:Response",
-                      fields={"status_code": "int", "direct_passthrough": "bool", "response": "opaque:iterable"})
-    reg.contract("werkzeug/wrappers/response.py:Response.iter_encoded", prop=P, trusted=True, returns="opaque:iterable",
-                 note="the encoded body iterator (its own contract: _iter_encoded)")
+                      fields={"status_code": "int", "direct_passthrough": "bool", "response": "List[str]", "g_enc": "List[bytes]",
+                              "headers": H, "autocorrect_location_header": "bool", "automatically_set_content_length": "bool"})
+    reg.contract("werkzeug/wrappers/response.py:Response.iter_encoded", prop=P, trusted=True, returns="List[bytes]",
+                 returns_expr="self.g_enc", modifies=[],
+                 note="the encoded body: str items encoded with the response's charset, bytes items as they are "
+                      "(the item-wise encoding itself: bounded tier)")
 
     def _closing(interp, cv, args, kwargs, node):
         return VObj("ClosingIterator", {"iterable": args[0], "ncallbacks": interp.const(len(args) - 1)})
@@ -203,6 +257,89 @@ def register(reg):
             "implies(not no_body(self.status_code, environ['REQUEST_METHOD']) and not self.direct_passthrough, "
             "        isinstance(result, ClosingIterator) and result.ncallbacks == 1)",
         ],
+    )
+
+    # ---- header finalisation: what the WSGI server is handed ------------------------------------------------
+    import z3 as _z3
+    from pyvc.values import VStr as _VStr, StrS as _StrS
+    IRI = _z3.Function("iri_to_uri", _StrS, _StrS)
+    JOIN = _z3.Function("urljoin", _StrS, _StrS, _StrS)
+    CUR = _z3.Function("current_url", _StrS)     # of the (abstract) environ: one per verification run
+    reg.ufunc("uf_iri", ["str"], "str")
+    reg.ufunc("uf_join", ["str", "str"], "str")
+    reg.contract("werkzeug/urls.py:iri_to_uri", prop=P, trusted=True, params={"iri": "str"}, returns="str", modifies=[],
+                 ensures=["result == uf_iri(iri)", "implies(clean(iri), clean(result))", "re_in(result, '[\\x00-\\x7f]*')"],
+                 note="IRI -> ASCII URI (C15 bounded tier); percent-encoding never introduces CR/LF")
+    reg.contract("werkzeug/wsgi.py:get_current_url", prop=P, trusted=True, returns="str", modifies=[],
+                 params={"environ": "opaque:environ", "strip_querystring": "bool"},
+                 param_names=["environ", "root_only", "strip_querystring", "host_only", "trusted_hosts"],
+                 ensures=["clean(result)"], note="URL of the request (C15); environ values are header-derived, free of CR/LF")
+    reg.overrides["std:urllib.parse.urljoin"] = lambda interp: __import__("pyvc.values", fromlist=["VBuiltin"]).VBuiltin(
+        "urllib.parse.urljoin", lambda it, a, k, n: _urljoin(it, a))
+
+    def _urljoin(it, a):
+        base, url = it.need(a[0]), it.need(a[1])
+        r = JOIN(base.z, url.z)
+        CLEAN = reg.spec_names["clean"]
+        # trusted: joining two CR/LF-free ASCII URLs gives a CR/LF-free ASCII URL
+        cb, cu, cr = (it.call(CLEAN, [_VStr(x, "str")], {}, None) for x in (base.z, url.z, r))
+        from pyvc.ops import truthy as _t
+        it.ctx.assume(_z3.Implies(_z3.And(_t(cb), _t(cu)), _t(cr)), "urljoin:keeps-values-free-of-CR-LF")
+        return _VStr(r, "str")
+    reg.contract("werkzeug/http.py:remove_entity_headers", prop=P, trusted=True, params={"headers": H}, modifies=["headers._list"],
+                 param_names=["headers", "allowed"], defaults={"allowed": "()"},
+                 ensures=["implies(old(I_h(headers)), I_h(headers))", "not has_key(headers, 'Content-Length')",
+                          "len(headers._list) <= len(old(headers._list))"],
+                 note="drops the entity headers (Content-Length among them) except Expires / Content-Location; "
+                      "a filter of the pairs (C08 bounded tier)")
+
+    def _headers_copy(interp, cv, args, kwargs, node):
+        # Headers(other): a new object with the same pairs (each re-checked by add); Headers(): empty
+        from pyvc.values import VList
+        from pyvc import ops as _ops
+        if not args:
+            return VObj(cv.info, {"_list": VList([])}, H)
+        src = interp.need(args[0])
+        if isinstance(src, VObj) and "_list" in src.fields:
+            return VObj(cv.info, {"_list": _ops.snapshot(src.fields["_list"])}, H)
+        from pyvc.ops import Unsupported
+        raise Unsupported("Headers(<something that is not a Headers model>)")
+    reg.constructors["werkzeug/datastructures/headers.py:Headers"] = _headers_copy
+    reg.spec("total_len(chunks)", "sum(len(x) for x in chunks)")
+    reg.spec("first_value_is(h, key, v)", "exists(0, len(h._list), lambda i: first_at(h._list, key, i) and h._list[i][1] == v, witness=lambda: len(h._list) - 1)")
+    reg.spec("bodyless(status)", "(100 <= status and status < 200) or status == 204")
+    reg.contract(
+        "werkzeug/wrappers/response.py:Response.get_wsgi_headers", prop=P, self_model=RespM,
+        params={"environ": "opaque:environ"}, returns=H, modifies=[], replay=replay_resp,
+        # every header assignment below is asked what it does to the presence of Content-Length
+        call_ghost={"werkzeug/datastructures/headers.py:Headers.set": {"k2": "'Content-Length'"}},
+        requires=["I_h(self.headers)"],
+        ensures=[
+            # every value handed to the server is free of CR and LF; the response's own headers are not touched
+            "I_h(result)",
+            # 1xx and 204 never carry a Content-Length
+            "implies(bodyless(self.status_code), not has_key(result, 'Content-Length'))",
+            # a Content-Length that werkzeug computes is the number of body bytes it will produce
+            "implies(self.automatically_set_content_length and not has_key(self.headers, 'Content-Length') and "
+            "        not bodyless(self.status_code) and self.status_code != 304, "
+            "        first_value_is(result, 'Content-Length', str(total_len(self.g_enc))))",
+            # and one that the application set is kept as it is unless the status forbids it
+            "implies(has_key(self.headers, 'Content-Length') and not bodyless(self.status_code) and self.status_code != 304 "
+            "        and not has_key(self.headers, 'Location') and not has_key(self.headers, 'Content-Location'), "
+            "        result._list == self.headers._list)",
+        ],
+        raises={},
+        # intermediate lemmas: rewriting Location / Content-Location never makes a Content-Length appear
+        ghost_after={"headers['Location'] = location": ["assert implies(content_length is None, not has_key(headers, 'Content-Length'))"],
+                     "headers['Content-Location'] = iri_to_uri(content_location)":
+                         ["assert implies(content_length is None, not has_key(headers, 'Content-Length'))"]},
+        loops={0: {"types": {"location": "Optional[str]", "content_location": "Optional[str]", "content_length": "Optional[str]"},
+                   "inv": ["(content_length is None) == forall(0, _i, lambda j: hkey(headers, j) != 'content-length')",
+                           "(location is None) == forall(0, _i, lambda j: hkey(headers, j) != 'location')",
+                           "(content_location is None) == forall(0, _i, lambda j: hkey(headers, j) != 'content-location')",
+                           "implies(location is not None, clean(location))",
+                           "implies(content_location is not None, clean(content_location))",
+                           "headers._list == self.headers._list", "I_h(headers)"]}},
     )
 
     # ---- status normalisation -----------------------------------------------------------------------
